@@ -5,7 +5,7 @@ import Rfsm.Gen.LockSites
 Driver family `locks` (C17).
 
 * `locks table`                       → `edges=<n> sites=<n> rank=<…|none> cycles=<c1,c2,…|->` for the generated table
-* `locks fixed`                       → the same for the table without the offending edges
+* `locks fixed`                       → the same for the table without the offending edge (`D → D any`)
 * `locks cycles <edges>`              → independent cycles of an edge list (`-` = none)
 * `locks rank <edges>`                → `TF=0,DF=0,…` or `none`
 * `locks check <pairs>`               → observed (held, acquired) pairs that are *not* instances of an
@@ -75,10 +75,9 @@ def showRank (t : List Edge) : String :=
     ",".intercalate ((rankTable t).map fun (c, n) => c.name ++ "=" ++ toString n)
   else "none"
 
-def offending (e : Edge) : Bool :=
-  (e.held == .E && e.acq == .P) ||
-  (e.held == .G && (e.acq == .Gn || e.acq == .P)) ||
-  (e.held == .D && e.acq == .D && e.rel == .any)
+/-- the one edge behind the remaining cycle `D>D` (same definition as `Rfsm.Locks.offending` in
+`Rfsm.Props.C17`; the edges `E → P`, `G → Gn`, `G → P` of the repaired cycles are no longer in the table) -/
+def offending (e : Edge) : Bool := e.held == .D && e.acq == .D && e.rel == .any
 
 def summary (t : List Edge) : String :=
   s!"edges={t.length} sites={Rfsm.Gen.LockSites.siteCount} rank={showRank t} cycles={showCycles t}"
